@@ -4,6 +4,7 @@ import (
 	"bytes"
 	"fmt"
 	"math"
+	"math/big"
 	"sort"
 	"strconv"
 	"strings"
@@ -612,6 +613,18 @@ func enumScalars(tier string, fam scalarFam, yield func(core.Case) bool) {
 				}
 			}
 		}
+		// long literals: the exact decimal expansion of doubles and of the midpoints between adjacent doubles
+		// (up to 770 significant digits), the midpoint with one more digit (just above the tie) and cut by one
+		// digit (just below): correct rounding needs every digit (reference: strconv.ParseFloat)
+		for _, lit := range longLiterals() {
+			x, err := strconv.ParseFloat(lit.text, 64)
+			if err != nil {
+				panic("harness: " + err.Error())
+			}
+			if !emit(tbin.Double(x), Spelling{}, ",long-literal:"+lit.kind, []string{lit.text}) {
+				return
+			}
+		}
 	case tbin.STRING:
 		if s.Binary {
 			for _, b := range binBoundary() {
@@ -1119,4 +1132,44 @@ func enumMismatch(tier string, mt mmType, yield func(core.Case) bool) {
 			}
 		}
 	}
+}
+
+type longLit struct{ kind, text string }
+
+func exactDecimal(f *big.Float) string {
+	t := f.Text('e', 1100)
+	i := strings.IndexByte(t, 'e')
+	m, e := strings.TrimRight(t[:i], "0"), t[i:]
+	if strings.HasSuffix(m, ".") {
+		m += "0"
+	}
+	return m + e
+}
+
+// longLiterals: for doubles spread over the exponent range (subnormal, smallest normal, 2^-500 .. 2^1023) x
+// mantissas {0, 1, all-ones, alternating}: the exact value, the exact midpoint to the next double, the
+// midpoint just above and just below.
+func longLiterals() []longLit {
+	var out []longLit
+	for _, e := range []uint64{0, 1, 523, 923, 1013, 1023, 1033, 1075, 1123, 1523, 2046} {
+		for _, m := range []uint64{0, 1, 1<<52 - 1, 0x5555555555555} {
+			if e == 0 && m == 0 {
+				continue
+			}
+			x := math.Float64frombits(e<<52 | m)
+			y := math.Nextafter(x, math.Inf(1))
+			if math.IsInf(y, 0) {
+				continue
+			}
+			bx := new(big.Float).SetPrec(2400).SetFloat64(x)
+			by := new(big.Float).SetPrec(2400).SetFloat64(y)
+			mid := new(big.Float).SetPrec(2400).Add(bx, by)
+			mid.Quo(mid, big.NewFloat(2))
+			ms := exactDecimal(mid)
+			i := strings.IndexByte(ms, 'e')
+			out = append(out, longLit{"exact", exactDecimal(bx)}, longLit{"midpoint", ms},
+				longLit{"midpoint-above", ms[:i] + "1" + ms[i:]}, longLit{"midpoint-below", ms[:i-1] + ms[i:]})
+		}
+	}
+	return out
 }
